@@ -8,6 +8,7 @@ import (
 
 	"github.com/rminnich/go9p"
 	"github.com/rminnich/go9p/vs"
+	vsync "github.com/rminnich/go9p/vs/vsync"
 )
 
 // ScriptFS is the scripted file-server implementation: a fixed synthetic tree
@@ -100,12 +101,15 @@ type FS struct {
 	ErrAll       map[string]string // op name -> error (implementation failure injection)
 	destroyed    map[int]int       // token -> times destroyed
 	cancelled    map[*go9p.SrvReq]bool // requests this implementation cancelled through FlushOp
+	mu           vsync.Mutex           // orders a worker's decision to answer against the Flush handler's decision to cancel
+	answering    map[*go9p.SrvReq]bool
+	NoLateAnswer bool                  // a worker whose request this implementation cancelled returns without answering
 	tokenConn    map[int]int           // identity token of every fid shown to the implementation -> connection
 	Saved        []*go9p.SrvReq
 }
 
 func NewFS() *FS {
-	fs := &FS{Script: map[reqKey]*Action{}, tagOcc: map[[2]int]int{}, conns: map[*go9p.Conn]int{}, occOf: map[*go9p.SrvReq]int{}, destroyed: map[int]int{}, cancelled: map[*go9p.SrvReq]bool{}, tokenConn: map[int]int{}, ErrAll: map[string]string{}, AuthCheckErr: map[uint32]string{}}
+	fs := &FS{Script: map[reqKey]*Action{}, tagOcc: map[[2]int]int{}, conns: map[*go9p.Conn]int{}, occOf: map[*go9p.SrvReq]int{}, destroyed: map[int]int{}, cancelled: map[*go9p.SrvReq]bool{}, answering: map[*go9p.SrvReq]bool{}, tokenConn: map[int]int{}, ErrAll: map[string]string{}, AuthCheckErr: map[uint32]string{}}
 	fs.root = &node{name: "/", dir: true, path: 1, children: map[string]*node{}}
 	fs.nextPath = 2
 	d := fs.add(fs.root, "d", true)
@@ -166,12 +170,18 @@ func (fs *FS) show(f *go9p.SrvFid, n *node) *fidAux {
 func (fs *FS) enter(req *go9p.SrvReq, op string, fid *go9p.SrvFid, args string) (*Action, int) {
 	ci := fs.connIdx(req.Conn)
 	tag := req.Tc.Tag
+	if fs.NoLateAnswer {
+		fs.mu.Lock() // the implementation's own table of requests is what its Flush handler consults
+	}
 	occ, seen := fs.occOf[req]
 	if !seen {
 		k := [2]int{ci, int(tag)}
 		occ = fs.tagOcc[k]
 		fs.tagOcc[k] = occ + 1
 		fs.occOf[req] = occ
+	}
+	if fs.NoLateAnswer {
+		fs.mu.Unlock()
 	}
 	e := Entry{Seq: vs.Seq(), Kind: "call", Op: op, Conn: ci, Tag: tag, Occ: occ, Args: args}
 	if fid != nil {
@@ -189,6 +199,16 @@ func (fs *FS) enter(req *go9p.SrvReq, op string, fid *go9p.SrvFid, args string) 
 	if a.Gate != nil {
 		a.Gate.Acquire()
 		fs.Log = append(fs.Log, Entry{Seq: vs.Seq(), Kind: "resume", Op: op, Conn: ci, Tag: tag, Occ: occ})
+		if fs.NoLateAnswer {
+			// a well-behaved implementation: either the worker answers or the Flush handler cancels, never both
+			fs.mu.Lock()
+			if fs.cancelled[req] {
+				a = &Action{Silent: true}
+			} else {
+				fs.answering[req] = true
+			}
+			fs.mu.Unlock()
+		}
 	}
 	return a, len(fs.Log) - 1
 }
@@ -570,8 +590,27 @@ func (fs FSFlush) Flush(req *go9p.SrvReq) {
 	ci := fs.connIdx(req.Conn)
 	fs.Log = append(fs.Log, Entry{Seq: vs.Seq(), Kind: "flush", Conn: ci, Tag: req.Tc.Tag, Occ: fs.occOf[req]})
 	// an implementation can only cancel what it has been handed
-	if _, seen := fs.occOf[req]; fs.FlushMode == "cancel" && seen {
-		fs.cancelled[req] = true
+	if fs.NoLateAnswer {
+		fs.mu.Lock()
+	}
+	_, seen := fs.occOf[req]
+	if fs.NoLateAnswer {
+		fs.mu.Unlock()
+	}
+	if fs.FlushMode == "cancel" && seen {
+		if fs.NoLateAnswer {
+			fs.mu.Lock()
+			busy := fs.answering[req]
+			if !busy {
+				fs.cancelled[req] = true
+			}
+			fs.mu.Unlock()
+			if busy {
+				return // the worker is answering: too late to cancel
+			}
+		} else {
+			fs.cancelled[req] = true
+		}
 		req.Flush()
 	}
 }
